@@ -109,7 +109,7 @@ func verifC10NewStore(kinds []int, n int) {
 		doc = map[string]*cachedSecret{}
 		for i := 0; i < n; i++ {
 			var cs *cachedSecret
-			switch nondetChoice("cache.entry", 3) {
+			switch nondetChoice("cache.entry", param("entrykinds")) {
 			case 0:
 				cs = verifSymCached(false)
 			case 1:
